@@ -479,6 +479,11 @@ class HostConnection(object):
 
             if is_down:
                 self.shutdown()
+            elif connection is not self._connection:
+                # a replaced connection that was still serving requests failed: the pool's
+                # current connection is unaffected, just forget the old one
+                with self._lock:
+                    self._trash.discard(connection)
             else:
                 self._connection = None
                 with self._lock:
